@@ -160,3 +160,24 @@ Proof. vm_compute. reflexivity. Qed.
 
 Lemma gen_load_prelude_nonempty : gen_load_prelude <> [].
 Proof. vm_compute. discriminate. Qed.
+
+(* the consumers of the two loop-printed slices cannot tell nil from empty *)
+Lemma gen_loop_slices_nil_insensitive :
+  forallb (fun u => String.eqb u "range" || String.eqb u "len") gen_loop_slice_uses = true.
+Proof. vm_compute. reflexivity. Qed.
+
+Definition file_wf (f : val) : Prop :=
+  has_ty gen_env f file_ty = true /\ gen_wf (fld gen_env f "RuleGroups") = true.
+
+Lemma gen_precompiled_equals_source
+      (src pkginfo ruleset err : Type) (convert : src -> val * pkginfo + err) (load_file : option pkginfo -> val -> ruleset + err) :
+  (forall pk f, load_file pk (normalize_file f) = load_file pk f) ->
+  (forall p f, load_file (Some p) f = load_file None f) ->
+  forall s f p, convert s = inl (f, p) -> file_wf f ->
+  exists f', gen_ev file_ty false (gen_print_file f) = Some f' /\
+             load src val pkginfo ruleset err convert load_file s = load_from_ir val pkginfo ruleset err load_file f'.
+Proof.
+  intros Hn Hp. apply (precompiled_equals_source src val pkginfo ruleset err convert load_file file_wf
+                         (fun f => gen_ev file_ty false (gen_print_file f)) normalize_file); try assumption.
+  intros f [H1 H2]. now apply gen_file_roundtrip.
+Qed.
